@@ -385,6 +385,192 @@ def _esc_sites(f: Fn) -> List[Tuple[ast.AST, str]]:
     return out
 
 
+def _strip_bool(v):
+    while isinstance(v, ast.Call) and isinstance(v.func, ast.Name) and v.func.id in ('bool', 'cast') and v.args:
+        v = v.args[-1]
+    return v
+
+
+def _matches_oracle(vn: str, df: str, tag: str, cell: str):
+    """decides the atoms of matches(value_node, default) for one cell: the node's tag is `tag`; the default is None ('none'),
+    True, False, an int, a float or something else ('other': a str, a list, an object)"""
+    def is_tag_expr(e):
+        e = _strip_bool(e)
+        if isinstance(e, ast.Call) and isinstance(e.func, ast.Name) and e.func.id == 'str' and len(e.args) == 1:
+            e = e.args[0]
+        return norm(e) == '%s.tag' % vn
+
+    def o(e):
+        if isinstance(e, ast.Compare) and len(e.ops) == 1:
+            l, op, rr = e.left, e.ops[0], e.comparators[0]
+            if isinstance(op, (ast.Eq, ast.NotEq)):
+                for a, b in ((l, rr), (rr, l)):
+                    if is_tag_expr(a) and isinstance(b, ast.Constant) and isinstance(b.value, str):
+                        return (b.value == tag) == isinstance(op, ast.Eq)
+            if isinstance(op, (ast.In, ast.NotIn)) and is_tag_expr(l) and isinstance(rr, (ast.Tuple, ast.List, ast.Set)) \
+                    and all(isinstance(x, ast.Constant) for x in rr.elts):
+                return (tag in [x.value for x in rr.elts]) == isinstance(op, ast.In)
+            if isinstance(op, (ast.Is, ast.IsNot)) and norm(l) == df and isinstance(rr, ast.Constant) and (
+                    rr.value is None or isinstance(rr.value, bool)):
+                val = {'none': None, 'true': True, 'false': False}.get(cell, Ellipsis)
+                return (val is rr.value) == isinstance(op, ast.Is)
+        ia = isinstance_atom(e)
+        if ia and ia[0] == df:
+            types = ia[1]
+            if cell in ('none', 'other'):
+                return False if types <= {'int', 'float', 'bool', 'complex'} else None
+            if cell == 'int':
+                return True if 'int' in types else (False if types <= {'float', 'bool', 'complex', 'str'} else None)
+            if cell == 'float':
+                return True if 'float' in types else (False if types <= {'int', 'bool', 'complex', 'str'} else None)
+            if cell in ('true', 'false'):
+                return True if types & {'int', 'bool'} else (False if types <= {'float', 'complex', 'str'} else None)
+        return None
+    return o
+
+
+def _r14_4_table(r, f: Fn, vn: str, df: str):
+    """decision table of matches(): node tag x kind of default -> answer, independent of how the branches are arranged"""
+    from ..dtable import Evaluator, Unsupported
+    CELLS = ('none', 'true', 'false', 'int', 'float', 'other')
+    TRUE_W, FALSE_W = {'true', 'yes', 'y', 'on'}, {'false', 'no', 'n', 'off'}
+
+    def table(tag):
+        out = {}
+        for cell in CELLS:
+            ev = Evaluator(_matches_oracle(vn, df, CORE + tag, cell))
+            out[cell] = (ev, ev.run(f.node))
+        return out
+
+    def answers(ev, ocs):
+        """set of three-valued answers, None = depends on something the cell does not fix"""
+        res = set()
+        for oc in ocs:
+            if oc.kind == 'return' and oc.value is not None:
+                res.add(ev.truth(_strip_bool(oc.value)))
+            elif oc.kind == 'raise':
+                res.add('raise')
+            else:
+                res.add(False)
+        return res
+    try:
+        tabs = {t: table(t) for t in ('null', 'int', 'float', 'bool', 'str')}
+    except Unsupported as e:
+        r.fail(f.key('shape'), f.loc(), 'matches() is no longer a loop-free decision (%s): its answers cannot be tabulated' % e)
+        return
+    # null: matches exactly the default None
+    got = {c: answers(*tabs['null'][c]) for c in CELLS}
+    r.check(got['none'] == {True} and all(got[c] == {False} for c in CELLS if c != 'none'),
+            'a null node matches only the default None', f.key('null-arm'), f.loc(),
+            'a null value is considered equal to the default in the cells %s (expected: only for the default None)' % {
+                c: sorted(map(str, v)) for c, v in got.items()})
+    # int / float: no match unless the default is a number; then construct_yaml_<kind>(node) == default
+    for t in ('int', 'float'):
+        got = {c: answers(*tabs[t][c]) for c in CELLS}
+        guard_ok = got['none'] == {False} and got['other'] == {False}
+        r.check(guard_ok, '%s node: a default that is not a number never matches (and is never converted or compared)' % t,
+                f.key('convert-default:%s' % t), f.loc(), 'a %s node is compared with a default that is not a number (answers %s): '
+                'None / a str / a list reach the numeric comparison' % (t, {c: sorted(map(str, got[c])) for c in ('none', 'other')}))
+        ok = True
+        shown = ''
+        for c in ('int', 'float', 'true', 'false'):
+            ev, ocs = tabs[t][c]
+            for oc in ocs:
+                v = _strip_bool(oc.value) if oc.kind == 'return' and oc.value is not None else None
+                shown = norm(v) if v is not None else oc.kind
+                good = isinstance(v, ast.Compare) and len(v.ops) == 1 and isinstance(v.ops[0], ast.Eq) and {
+                    norm(v.left), norm(v.comparators[0])} == {'_yaml_constructor.construct_yaml_%s(%s)' % (t, vn), df}
+                if not good:
+                    ok = False
+        r.check(ok, '%s node, numeric default: PyYAML\'s construct_yaml_%s(node) == default' % (t, t), f.key('arm:%s' % t), f.loc(),
+                'for %s nodes matches() answers `%s` instead of comparing the value PyYAML constructs for the node with the default: '
+                'such values are compared as raw text / through the wrong conversion' % (t, shown))
+    # bool: default True -> true spellings, default False -> false spellings, anything else never matches
+    got = {c: answers(*tabs['bool'][c]) for c in CELLS}
+    r.check(all(got[c] == {False} for c in ('none', 'int', 'float', 'other')), 'a bool node never matches a default that is neither True nor False',
+            f.key('bool-other-default'), f.loc(), 'a bool node is considered equal to a default that is neither True nor False '
+            '(answers %s): e.g. an Optional[bool] = None attribute holding a bool is dropped from the dump and comes back as None'
+            % {c: sorted(map(str, got[c])) for c in ('none', 'int', 'float', 'other')})
+    for cell, want, other, key in (('true', TRUE_W, FALSE_W, 'bool-true-arm'), ('false', FALSE_W, TRUE_W, 'bool-false-arm')):
+        ev, ocs = tabs['bool'][cell]
+        ok = bool(ocs)
+        words = set()
+        for oc in ocs:
+            v = _strip_bool(oc.value) if oc.kind == 'return' and oc.value is not None else None
+            if v is None or isinstance(v, ast.Constant):
+                ok = False
+                continue
+            w = {const_str(x) for x in ast.walk(v) if isinstance(x, ast.Constant) and isinstance(x.value, str)}
+            words |= w
+            texts = {norm(x) for x in ast.walk(v) if isinstance(x, ast.Attribute)}
+            if not (w and w <= want and '%s.value' % vn in texts):
+                ok = False
+        r.check(ok, 'default %s matches only %s-spellings %s' % (cell.capitalize(), cell, sorted(words)), f.key(key), f.loc(),
+                'under `default is %s` the node text is compared with %s: a %s value would be dropped from the dump and come back '
+                'as %s' % (cell.capitalize(), sorted(words), 'False' if cell == 'true' else 'True', cell.capitalize()))
+    # every other tag: text == default, unconverted
+    okr = True
+    shown = ''
+    for c in CELLS:
+        ev, ocs = tabs['str'][c]
+        for oc in ocs:
+            v = _strip_bool(oc.value) if oc.kind == 'return' and oc.value is not None else None
+            shown = norm(v) if v is not None else oc.kind
+            if not (isinstance(v, ast.Compare) and len(v.ops) == 1 and isinstance(v.ops[0], ast.Eq)
+                    and {norm(v.left), norm(v.comparators[0])} == {'%s.value' % vn, df}):
+                okr = False
+    r.check(okr, 'every other node: text == default, unconverted', f.key('text-arm'), f.loc(),
+            'for str (and other) nodes matches() answers `%s` instead of comparing the node text with the default itself: a string '
+            'attribute whose text merely spells a non-string default (\'None\', \'0\', \'True\') is dropped from the dump and comes '
+            'back as that default' % shown)
+
+
+def _r14_4_filter(ctx, r, f: Fn):
+    """the filter: keep the pair unless (name in defaults and matches(value, defaults[name])) - as a comprehension or as an
+    accumulating loop"""
+    from ..dtable import Evaluator, text_oracle
+    P = ctx.P
+    outer = fn(P, NODE + 'remove_attributes_with_default_values')
+    mname = f.node.name
+    D = 'defaulted_attributes(%s)' % outer.fi.params[1]
+    K, V = '<each:self.yaml_node.value>[0]', '<each:self.yaml_node.value>[1]'
+    A, B = '%s.value in %s' % (K, D), '%s(%s, %s[%s.value])' % (mname, V, D, K)
+    cands = []          # (element, keep-condition) of every way the pair list is rebuilt
+    for n in outer.walk():
+        if isinstance(n, ast.Assign) and any(norm(t) == 'self.yaml_node.value' for t in n.targets):
+            v = n.value
+            if isinstance(v, ast.ListComp) and len(v.generators) == 1 and norm(v.generators[0].iter) == 'self.yaml_node.value':
+                g = v.generators[0]
+                cond = g.ifs[0] if len(g.ifs) == 1 else ast.BoolOp(ast.And(), list(g.ifs)) if g.ifs else ast.Constant(True)
+                cands.append((v.elt, cond))
+            elif isinstance(v, ast.Name):
+                acc = v.id
+                for lo in outer.walk():
+                    if not (isinstance(lo, ast.For) and norm(lo.iter) == 'self.yaml_node.value' and whole_collection_loop(lo)):
+                        continue
+                    body = [st for st in lo.body if not (isinstance(st, ast.Assign) and len(st.targets) == 1
+                                                         and isinstance(st.targets[0], ast.Name))]
+                    if len(body) == 1 and isinstance(body[0], ast.If) and not body[0].orelse and len(body[0].body) == 1:
+                        a = body[0].body[0]
+                        if isinstance(a, ast.Expr) and isinstance(a.value, ast.Call) and norm(a.value.func) == '%s.append' % acc \
+                                and len(a.value.args) == 1:
+                            cands.append((a.value.args[0], body[0].test))
+    ok = False
+    for elt, cond in cands:
+        if outer.alpha.text(elt) != '(%s, %s)' % (K, V):
+            continue
+        c = outer.alpha.rewrite(cond)
+        good = True
+        for a in (False, True):
+            for b in (False, True):
+                ev = Evaluator(text_oracle({A: a, B: b}))
+                if ev.truth(c) is not (not (a and b)):
+                    good = False
+        ok = ok or good
+    r.check(ok, 'pairs are kept, in order, unless the key is defaulted and matches(value, default)', outer.key('filter'), outer.loc(),
+            'remove_attributes_with_default_values does not keep exactly the pairs whose value differs from the default')
+
+
 def r14_4_matches_total(ctx, rid='R14.4'):
     P = ctx.P
     r = ctx.rule(rid, 'remove_attributes_with_default_values cannot fail on a value that differs from the default: conversions of '
@@ -410,76 +596,8 @@ def r14_4_matches_total(ctx, rid='R14.4'):
             r.check(ok, '%s(%s) in the %s arm' % (kind, arg, kind), f.key('convert-text:%s' % kind), f.loc(n),
                     'the text of a node tagged %s is converted with %s(): an int is compared through float (2**60+1 == 2**60) or '
                     'a float text through int' % (sorted(a) if a else '?', kind))
-    arms = {}
-    for ret in f.returns():
-        a, _ = tag_equalities(f.guards(ret), '%s.tag' % vn, f.copies)
-        if a and len(a) == 1:
-            arms.setdefault(ast.literal_eval(next(iter(a))), []).append(ret)
-    for t in ('int', 'float', 'bool', 'null'):
-        r.check(CORE + t in arms, 'matches() has an arm for %s nodes' % t, f.key('arm:%s' % t), f.loc(),
-                'matches() has no arm for %s nodes: such values are compared as raw text with the default' % t)
-    # the remaining tags (str and everything without an arm): the node text equals the default itself - no conversion of either
-    # side, so a default that is not a string never matches
-    rest = [ret for ret in f.returns() if not (tag_equalities(f.guards(ret), '%s.tag' % vn, f.copies)[0])]
-    okr = bool(rest)
-    shown = ''
-    for ret in rest:
-        v = ret.value
-        while isinstance(v, ast.Call) and isinstance(v.func, ast.Name) and v.func.id == 'bool' and len(v.args) == 1:
-            v = v.args[0]
-        shown = norm(v) if v is not None else 'None'
-        if not (isinstance(v, ast.Compare) and len(v.ops) == 1 and isinstance(v.ops[0], ast.Eq)
-                and {f.alpha.text(v.left), f.alpha.text(v.comparators[0])} == {'%s.value' % vn, df}):
-            okr = False
-    r.check(okr, 'every other node: text == default, unconverted', f.key('text-arm'), f.loc(rest[0]) if rest else f.loc(),
-            'for str (and other) nodes matches() answers `%s` instead of comparing the node text with the default itself: a string '
-            'attribute whose text merely spells a non-string default (\'None\', \'0\', \'True\') is dropped from the dump and comes '
-            'back as that default' % shown)
-    # bool polarity: in the bool arm every answer is (a) the false-spellings test under `default is False`, (b) the true-spellings
-    # test under `default is True`, or (c) the constant False (the default is not a bool)
-    seen = set()
-    for ret in arms.get(CORE + 'bool', []):
-        gs = {G.canon_atom(g, p) for g, p in f.guards(ret)}
-        words = {const_str(x) for x in ast.walk(ret.value) if isinstance(x, ast.Constant) and isinstance(x.value, str)} if ret.value is not None else set()
-        if ('%s is False' % df, True) in gs:
-            seen.add(False)
-            r.check('false' in words and not (words & {'true', 'yes', 'y', 'on'}), 'default False matches only false-spellings %s' % sorted(words),
-                    f.key('bool-false-arm'), f.loc(ret), 'under `default is False` the node text is compared with %s: a True value '
-                    'would be dropped from the dump and come back as False' % sorted(words))
-        elif ('%s is True' % df, True) in gs:
-            seen.add(True)
-            r.check('true' in words and not (words & {'false', 'no', 'n', 'off'}), 'default True matches only true-spellings %s' % sorted(words),
-                    f.key('bool-true-arm'), f.loc(ret), 'under `default is True` the node text is compared with %s: a False value '
-                    'would be dropped from the dump and come back as True' % sorted(words))
-        else:
-            r.check(isinstance(ret.value, ast.Constant) and ret.value.value is False, 'a bool node never matches a default that is '
-                    'neither True nor False', f.key('bool-other-default'), f.loc(ret), 'a bool node is considered equal to a default that '
-                    'is neither True nor False (answer `%s` under %s): e.g. an Optional[bool] = None attribute holding a bool is dropped '
-                    'from the dump and comes back as None' % (norm(ret.value) if ret.value is not None else None,
-                                                              sorted(t for t, p in gs if df in t)))
-    if CORE + 'bool' in arms:
-        r.check(seen == {True, False}, 'the bool arm distinguishes default True from default False', f.key('bool-arms'), f.loc(),
-                'the bool arm of matches() has no test for default %s: a bool attribute equal to that default is never removed / '
-                'the other spelling set is applied to it' % sorted({True, False} - seen))
-    # null arm
-    for ret in arms.get(CORE + 'null', []):
-        r.check(ret.value is not None and norm(ret.value) == '%s is None' % df, 'a null node matches only the default None', f.key('null-arm'),
-                f.loc(ret), 'a null value is considered equal to the default by %s' % (norm(ret.value) if ret.value is not None else None))
-    # the filter: keep the pair unless (name in defaults and matches(value, defaults[name]))
-    outer = fn(P, NODE + 'remove_attributes_with_default_values')
-    st = [n for n in outer.walk() if isinstance(n, ast.Assign) and any(norm(t) == 'self.yaml_node.value' for t in n.targets)]
-    ok = False
-    for n in st:
-        if isinstance(n.value, ast.ListComp) and len(n.value.generators) == 1 and norm(n.value.generators[0].iter) == 'self.yaml_node.value':
-            g = n.value.generators[0]
-            kn, vv = (norm(x) for x in g.target.elts) if isinstance(g.target, ast.Tuple) else (None, None)
-            cond = [outer.alpha.text(x) for x in g.ifs]
-            D = 'defaulted_attributes(%s)' % outer.fi.params[1]
-            K, V = '<each:self.yaml_node.value>[0]', '<each:self.yaml_node.value>[1]'
-            ok = kn is not None and outer.alpha.text(n.value.elt) == '(%s, %s)' % (K, V) and cond == [
-                '%s.value not in %s or not matches(%s, %s[%s.value])' % (K, D, V, D, K)]
-    r.check(ok, 'pairs are kept, in order, unless the key is defaulted and matches(value, default)', outer.key('filter'), outer.loc(),
-            'remove_attributes_with_default_values does not keep exactly the pairs whose value differs from the default')
+    _r14_4_table(r, f, vn, df)
+    _r14_4_filter(ctx, r, f)
     r.done()
 
 
